@@ -79,7 +79,37 @@ func oracleC02(x *Exec, so *StepObs) {
 			return
 		}
 		newIDs := idSet(ManifestIDs(lr.Manifest, ns))
-		for _, d := range so.Before.Deployed() {
+		prevDeployed := so.Before.Deployed()
+		if len(prevDeployed) == 0 {
+			// no revision is marked deployed (a failed operation re-labelled it): "the previously deployed
+			// manifest" is then that of the most recent revision that was observed deployed and still exists
+			best := 0
+			for rev := range x.everDepBefore(so) {
+				if rev > best {
+					best = rev
+				}
+			}
+			// which operation took the deployed mark away without deploying anything else?
+			lostBy := ""
+			for i := len(x.Steps) - 1; i >= 0; i-- {
+				st := x.Steps[i]
+				if st.Index >= so.Index || st.Before == nil || st.After == nil {
+					continue
+				}
+				if len(st.Before.Deployed()) > 0 && len(st.After.Deployed()) == 0 {
+					if len(st.Results) == 1 {
+						lostBy = st.Results[0].Op.Op
+					}
+					break
+				}
+			}
+			// after an uninstall the question is moot (uninstall applied its own keep rules)
+			if best != 0 && lostBy != "" && lostBy != "uninstall" {
+				prevDeployed = []int{best}
+				class = "no-revision-marked-deployed:lost-by-failed-" + lostBy
+			}
+		}
+		for _, d := range prevDeployed {
 			old := so.Before.Rev(d)
 			for _, id := range ManifestIDs(old.Manifest, ns) {
 				if newIDs[id.String()] {
